@@ -2,7 +2,7 @@
    re-issued request, revalidation order and progress are checked by correspondence and monitors). *)
 From Coq Require Import List NArith ZArith String Bool.
 From DT Require Import GenStatus GenEvent GenMsgType FsmTypes GenFsm Fsm Machine View Caches Msg Node
-     FsmFacts NodeFacts NodeProps C19Proofs Transport C16Proofs.
+     FsmFacts NodeFacts NodeProps C19Proofs Transport C16Proofs C10Cleanup.
 Import ListNotations.
 
 (* over every history of inputs (restarts of every kind included, with process restarts): every
@@ -71,3 +71,23 @@ Theorem C10_pending_extensions_delivered_once :
     default_exts o = tc_pending c.
 Proof. exact pending_extensions_delivered_once. Qed.
 Print Assumptions C10_pending_extensions_delivered_once.
+
+(* a restart of a channel that is cleaning up only finishes the cleanup: the handler is then exactly
+   "read the channel and send it CompleteCleanupOnRestart" (whose effect is C09 / C06's: one cleanup
+   run, the matching terminal status): no message, no transport request, no validation *)
+Theorem C10_restart_in_cleanup_only_finishes_cleanup :
+  forall s k cs,
+    lookup k (n_chans (s_node s)) = Some cs ->
+    is_cleanup (c_status (m_chan (msync (cs_m cs)))) = true ->
+    run (restart_channel k) s = run (finish_cleanup_only k) s.
+Proof. exact restart_in_cleanup_only_finishes_cleanup. Qed.
+Print Assumptions C10_restart_in_cleanup_only_finishes_cleanup.
+
+(* a restart of a terminated channel does nothing *)
+Theorem C10_restart_of_terminated_does_nothing :
+  forall s k cs,
+    lookup k (n_chans (s_node s)) = Some cs ->
+    is_final (c_status (m_chan (msync (cs_m cs)))) = true ->
+    run (restart_channel k) s = (ROk, snd (run (exec (IGet k)) s)).
+Proof. exact restart_of_terminated_does_nothing. Qed.
+Print Assumptions C10_restart_of_terminated_does_nothing.
